@@ -58,7 +58,8 @@ CHECKS = {
         rule='rapid-generated plans; non-trivial = a subscription received retained messages in a plan that also has a retained replacement, a clear or >= 1 ring of filler; distinct = FNV-64 of the plan JSON',
         assumptions=['the retain flag of deliveries to in-process callbacks (Server.Subscribe) is not judged: the callback sees the message object as published', 'unit sequential: one request at a time', 'unit retained-concurrent: 2-3 subscribers and one updating publisher; the schedule is varied at packet-write granularity (yield writeMessage.enter), not inside the retained store'],
         units=[dict(name="sequential", test="TestC08", checks=(6000, 500000), shards=(4, 14), timeout=(240, 3000)),
-               dict(name="retained-concurrent", test="TestC08RetConc", checks=(1600, 300000), shards=(4, 14), timeout=(240, 3000))]),
+               dict(name="retained-concurrent", test="TestC08RetConc", checks=(1600, 300000), shards=(4, 14), timeout=(240, 3000)),
+               dict(name="update-windows", test="TestC08Windows", checks=(1600, 200000), shards=(4, 14), timeout=(240, 3000))]),
 
     "C09": dict(
         pkg="p_broker", level="exploration",
